@@ -2,6 +2,7 @@ import Gql.Proofs.VariablesTotal
 import Gql.Proofs.Conforms
 import Gql.Proofs.ConformsLiteral
 import Gql.Proofs.RoundTripMain
+import Gql.Proofs.Scoping
 /-!
 # C15 — Input coercion and input validation agree on values, literals and variables
 
@@ -123,6 +124,38 @@ theorem coerce_iff_valid_literal (c : PyConv) (D : Field → R) (tm : TypeMap) (
     subst h1
     exact h2
   · intro h; exact ⟨cv, rfl, h⟩
+
+/-- C15-1 (fragment variables, the scoping rule). With experimental fragment arguments both
+functions receive the operation's `VariableValues` and the fragment's `FragmentVariableValues`;
+the variable a name refers to is `scopeVars vars fvars`: a name the fragment declares (a key of
+`.sources` — with a value, with a default or *without any value*) is looked up in the fragment's
+coerced values only, so it shadows an operation variable of the same name even when it has no
+value; any other name is the operation's. -/
+theorem fragment_scope_shadows (vars : Option VarValues) (fv : FragVarValues) (x : List Nat) :
+    varGet (scopeVars vars (some fv)) x = if x ∈ fv.sources then fragLookup fv x else varGet vars x :=
+  varGet_scopeVars vars fv x
+
+/-- C15-1 (literals, with operation *and* fragment variables): coercion returns a value exactly
+when validation is silent, both reading variables through the same scoping rule. "Static" means
+that neither map is given (`scopeVars_isNone`). -/
+theorem coerce_iff_valid_literal_scoped (c : PyConv) (D : Field → R) (tm : TypeMap) (hW : TmWF D tm)
+    (vars : Option VarValues) (fvars : Option FragVarValues) (l : Lit) (t : InType)
+    (hconst : vars = none → fvars = none → l.isConst = true) (hu : l.Unique)
+    (hok : VarOK (scopeVars vars fvars) l t) :
+    (∃ cv, coerceLiteral c D tm (scopeVars vars fvars) l t = .ok cv ∧ cv ≠ .undefined) ↔
+      validateInputLiteral c tm (scopeVars vars fvars) l t = [] := by
+  apply coerce_iff_valid_literal c D tm hW (scopeVars vars fvars) l t _ hu hok
+  intro hnone
+  have h := scopeVars_isNone vars fvars
+  rw [hnone] at h
+  simp only [Option.isNone_none, Bool.true_eq, Bool.and_eq_true, Option.isNone_iff_eq_none] at h
+  exact hconst h.1 h.2
+
+-- a fragment that declares `$x` without a value hides the operation's `$x = 5`
+example : varGet (scopeVars (some ⟨[], [([120], .int 5)]⟩) (some ⟨[[120]], []⟩)) [120] = .undefined ∧
+    varGet (scopeVars (some ⟨[], [([120], .int 5)]⟩) (some ⟨[[121]], []⟩)) [120] = .int 5 := by
+  rw [varGet_scopeVars, varGet_scopeVars]
+  simp [fragLookup, PyVal.dictGet, varGet]
 
 /-- `coerce_input_literal` never raises on such literals. -/
 theorem coerce_literal_no_crash (c : PyConv) (D : Field → R) (tm : TypeMap) (hW : TmWF D tm)
